@@ -208,7 +208,7 @@ func c07Run(r *Run) {
 	type privArm struct {
 		fk             string
 		pos            token.Pos
-		privP, protP   string
+		privP, protP   *types.Func
 		havePriv, both bool
 	}
 	var arms []privArm
@@ -536,46 +536,75 @@ func c07Run(r *Run) {
 			}
 			r.curRule = "C07-VIS"
 		}
-		// PRIV: if/else-if chains comparing GetModifier() with ModifierPrivate then ModifierProtected
-		ast.Inspect(fd.Body, func(n ast.Node) bool {
-			is, ok := n.(*ast.IfStmt)
-			if !ok {
-				return true
-			}
-			which := func(e ast.Expr) string {
-				out := ""
-				ast.Inspect(e, func(m ast.Node) bool {
-					if se, ok := m.(*ast.SelectorExpr); ok {
-						if se.Sel.Name == "ModifierPrivate" || se.Sel.Name == "ModifierProtected" {
+		// PRIV: the restricted modifiers are told apart — an if/else-if chain comparing the modifier with
+		// ModifierPrivate then ModifierProtected, or two neighbouring ifs doing the same — and each arm
+		// decides by a predicate (called in the arm's condition or in its body)
+		which := func(e ast.Expr) string {
+			out := ""
+			ast.Inspect(e, func(m ast.Node) bool {
+				if se, ok := m.(*ast.SelectorExpr); ok {
+					if se.Sel.Name == "ModifierPrivate" || se.Sel.Name == "ModifierProtected" {
+						if out != "" && out != se.Sel.Name {
+							out = "both"
+						} else if out == "" {
 							out = se.Sel.Name
 						}
 					}
-					return true
-				})
-				return out
-			}
-			pred := func(b *ast.BlockStmt) string {
-				out := ""
-				ast.Inspect(b, func(m ast.Node) bool {
-					if c, ok := m.(*ast.CallExpr); ok && out == "" {
-						if f, ok := calleeOf(info, c).(*types.Func); ok && f.Pkg() == npkg.Types && !strings.HasPrefix(f.Name(), "New") {
-							if b, ok := f.Type().(*types.Signature).Results().At(0).Type().Underlying().(*types.Basic); ok && b.Kind() == types.Bool {
-								out = f.Name()
+				}
+				return true
+			})
+			return out
+		}
+		pred := func(is *ast.IfStmt) *types.Func {
+			var out *types.Func
+			look := func(n ast.Node) {
+				ast.Inspect(n, func(m ast.Node) bool {
+					if c, ok := m.(*ast.CallExpr); ok && out == nil {
+						if f, ok := calleeOf(info, c).(*types.Func); ok && f.Pkg() != nil && r.ByPath[f.Pkg().Path()] != nil && !strings.HasPrefix(f.Name(), "New") && f.Type().(*types.Signature).Recv() == nil {
+							if res := f.Type().(*types.Signature).Results(); res.Len() > 0 {
+								if b, ok := res.At(0).Type().Underlying().(*types.Basic); ok && b.Kind() == types.Bool {
+									out = f
+								}
 							}
 						}
 					}
-					return out == ""
+					return out == nil
 				})
-				return out
 			}
-			if which(is.Cond) != "ModifierPrivate" {
-				return true
+			look(is.Cond)
+			if out == nil {
+				look(is.Body)
 			}
-			el, ok := is.Else.(*ast.IfStmt)
-			if !ok || which(el.Cond) != "ModifierProtected" {
-				return true
+			return out
+		}
+		var blocks func(list []ast.Stmt)
+		blocks = func(list []ast.Stmt) {
+			for i, st := range list {
+				is, ok := st.(*ast.IfStmt)
+				if !ok || which(is.Cond) != "ModifierPrivate" {
+					continue
+				}
+				var other *ast.IfStmt
+				if el, ok := is.Else.(*ast.IfStmt); ok && which(el.Cond) == "ModifierProtected" {
+					other = el
+				} else if is.Else == nil && i+1 < len(list) {
+					if nx, ok := list[i+1].(*ast.IfStmt); ok && which(nx.Cond) == "ModifierProtected" {
+						other = nx
+					}
+				}
+				if other == nil {
+					continue
+				}
+				arms = append(arms, privArm{fk: fk, pos: is.Pos(), privP: pred(is), protP: pred(other)})
 			}
-			arms = append(arms, privArm{fk: fk, pos: is.Pos(), privP: pred(is.Body), protP: pred(el.Body)})
+		}
+		ast.Inspect(fd.Body, func(n ast.Node) bool {
+			switch x := n.(type) {
+			case *ast.BlockStmt:
+				blocks(x.List)
+			case *ast.CaseClause:
+				blocks(x.Body)
+			}
 			return true
 		})
 	}
@@ -601,11 +630,11 @@ func c07Run(r *Run) {
 		if !takesModifier {
 			continue
 		}
-		called := map[string]bool{}
+		called := map[*types.Func]bool{}
 		ast.Inspect(fd.Body, func(m ast.Node) bool {
 			if c, ok := m.(*ast.CallExpr); ok {
-				if f, ok := calleeOf(info, c).(*types.Func); ok && f.Pkg() == npkg.Types && isVisibilityPredicate(f, dataPath) {
-					called[f.Name()] = true
+				if f, ok := calleeOf(info, c).(*types.Func); ok && f.Pkg() != nil && r.ByPath[f.Pkg().Path()] != nil && isVisibilityPredicate(f, dataPath) {
+					called[f] = true
 				}
 			}
 			return true
@@ -620,12 +649,12 @@ func c07Run(r *Run) {
 	for _, a := range arms {
 		key := a.fk + "#private-vs-protected"
 		switch {
-		case a.privP == "" || a.protP == "":
+		case a.privP == nil || a.protP == nil:
 			r.info(key, a.pos, "modifier chain without a recognisable predicate")
 		case a.privP == a.protP:
-			r.bad(key, a.pos, "the private arm and the protected arm both decide by "+a.privP+": a subclass (or a parent) is granted access to private members")
+			r.bad(key, a.pos, "the private arm and the protected arm both decide by "+a.privP.Name()+": a subclass (or a parent) is granted access to private members")
 		default:
-			r.ok(key, a.pos, "private decided by "+a.privP+", protected by "+a.protP)
+			r.ok(key, a.pos, "private decided by "+a.privP.Name()+", protected by "+a.protP.Name())
 		}
 	}
 
@@ -724,12 +753,12 @@ func c07Run(r *Run) {
 	// ---- REJECT ----
 	c07Reject(r, npkg)
 	// ---- PRED ----
-	preds := map[string]bool{}
+	preds := map[*types.Func]bool{}
 	for _, a := range arms {
-		if a.privP != "" {
+		if a.privP != nil {
 			preds[a.privP] = true
 		}
-		if a.protP != "" {
+		if a.protP != nil {
 			preds[a.protP] = true
 		}
 	}
@@ -737,11 +766,18 @@ func c07Run(r *Run) {
 		// no modifier chain names a predicate: take the visibility predicates by role
 		for _, fd := range funcDecls(npkg) {
 			if f, ok := info.Defs[fd.Name].(*types.Func); ok && fd.Recv == nil && isVisibilityPredicate(f, dataPath) {
-				preds[f.Name()] = true
+				preds[f] = true
+			}
+		}
+		if dp := r.ByPath[dataPath]; dp != nil {
+			for _, fd := range funcDecls(dp) {
+				if f, ok := dp.TypesInfo.Defs[fd.Name].(*types.Func); ok && fd.Recv == nil && isVisibilityPredicate(f, dataPath) {
+					preds[f] = true
+				}
 			}
 		}
 	}
-	c07Pred(r, npkg, preds)
+	c07Pred(r, preds)
 
 	// ---- NEW ----
 	r.curRule = "C07-NEW"
@@ -1080,21 +1116,17 @@ func c07Reject(r *Run, npkg *packages.Package) {
 // side is a party itself (caller class / bound scope / target class) and the other side belongs to the
 // other party (itself or its extends chain). Helpers that answer bool are analysed with the tags of
 // the arguments at each call site.
-func c07Pred(r *Run, npkg *packages.Package, preds map[string]bool) {
+func c07Pred(r *Run, preds map[*types.Func]bool) {
 	r.curRule = "C07-PRED"
-	info := npkg.TypesInfo
-	declOf := map[types.Object]*ast.FuncDecl{}
-	for _, fd := range funcDecls(npkg) {
-		declOf[info.Defs[fd.Name]] = fd
-	}
 	type grant struct {
 		pos token.Pos
 		ok  bool
 	}
 	// analyse returns the grant sites of fd when its parameters carry the given tags
 	// (1=C0 2=C+ 4=T0 8=T+), and whether every grant is justified
-	var analyse func(fd *ast.FuncDecl, paramTags []int, depth int) []grant
-	analyse = func(fd *ast.FuncDecl, paramTags []int, depth int) []grant {
+	var analyse func(pkg *packages.Package, fd *ast.FuncDecl, paramTags []int, depth int) []grant
+	analyse = func(pkg *packages.Package, fd *ast.FuncDecl, paramTags []int, depth int) []grant {
+		info := pkg.TypesInfo
 		tags := map[types.Object]int{}
 		k := 0
 		for _, f := range fd.Type.Params.List {
@@ -1189,11 +1221,12 @@ func c07Pred(r *Run, npkg *packages.Package, preds map[string]bool) {
 				if !ok {
 					return true
 				}
-				h := declOf[calleeOf(info, c)]
+				hf, _ := calleeOf(info, c).(*types.Func)
+				hp, h := r.declAnywhere(hf)
 				if h == nil || h == fd || h.Type.Results == nil {
 					return true
 				}
-				sig := info.Defs[h.Name].Type().(*types.Signature)
+				sig := hf.Type().(*types.Signature)
 				if b, ok := sig.Results().At(0).Type().Underlying().(*types.Basic); !ok || b.Kind() != types.Bool {
 					return true
 				}
@@ -1201,7 +1234,7 @@ func c07Pred(r *Run, npkg *packages.Package, preds map[string]bool) {
 				for i, a := range c.Args {
 					at[i] = tagOf(a)
 				}
-				gs := analyse(h, at, depth+1)
+				gs := analyse(hp, h, at, depth+1)
 				all := len(gs) > 0
 				for _, g := range gs {
 					if !g.ok {
@@ -1332,17 +1365,19 @@ func c07Pred(r *Run, npkg *packages.Package, preds map[string]bool) {
 		}
 		return out
 	}
-	names := []string{}
-	for n := range preds {
-		names = append(names, n)
+	fns := []*types.Func{}
+	for f := range preds {
+		fns = append(fns, f)
 	}
-	sort.Strings(names)
-	for _, name := range names {
-		fd := findFunc(npkg, "", name)
-		if fd == nil {
+	sort.Slice(fns, func(i, j int) bool { return fns[i].FullName() < fns[j].FullName() })
+	for _, fn := range fns {
+		ppkg, fd := r.declAnywhere(fn)
+		if fd == nil || fd.Recv != nil {
 			continue
 		}
-		fk := funcKey(npkg, fd)
+		name := fn.Name()
+		info := ppkg.TypesInfo
+		fk := funcKey(ppkg, fd)
 		var pt []int
 		for _, f := range fd.Type.Params.List {
 			for range f.Names {
@@ -1357,7 +1392,7 @@ func c07Pred(r *Run, npkg *packages.Package, preds map[string]bool) {
 				}
 			}
 		}
-		gs := analyse(fd, pt, 0)
+		gs := analyse(ppkg, fd, pt, 0)
 		if len(gs) == 0 {
 			r.fail("visibility predicate %s never answers true", name)
 		}
